@@ -141,6 +141,42 @@ func vSkeleton(id int) []string {
 			ks = append(ks, p+"a", p+"b", p+"c")
 		}
 		return vSorted(ks)
+	case 7: // 257-bit root over 15 plain 17-bit nodes with pairwise different label sets:
+		// the Inners bitmap is exactly 257+15*17 = 512 bits and its very last bit (label 0xf
+		// of the last node) is set
+		var ks []string
+		for i := 0; i < 15; i++ {
+			b := byte(0x11 + i*0x0f)
+			lo, hi := byte(i%15), byte(15)
+			if i == 14 {
+				lo = 13
+			}
+			ks = append(ks, string([]byte{b, lo << 4}), string([]byte{b, hi<<4 | byte(i)}))
+		}
+		return vSorted(ks)
+	case 8: // 64 keys (fan-out 4 x 4 x 4): a leaf count that is a multiple of 64
+		var ks []string
+		for i := 0; i < 64; i++ {
+			ks = append(ks, string([]byte{byte('a' + i/16), byte('k' + (i/4)%4), byte('p' + i%4)}))
+		}
+		return ks
+	case 9: // 128 keys
+		var ks []string
+		for i := 0; i < 128; i++ {
+			ks = append(ks, string([]byte{byte('a' + i/16), byte('k' + (i/4)%4), byte('p' + i%4)}))
+		}
+		return ks
+	case 10: // 20 groups x {a,b} + 20 groups x {a,c}: a tie in the bitmap-frequency table
+		var ks []string
+		for i := 0; i < 40; i++ {
+			p := string([]byte{byte('0' + i/16), byte('a' + i%16)})
+			if i%2 == 0 {
+				ks = append(ks, p+"a", p+"b")
+			} else {
+				ks = append(ks, p+"a", p+"c")
+			}
+		}
+		return vSorted(ks)
 	}
 	panic("unknown skeleton")
 }
